@@ -1,0 +1,15 @@
+//go:build verif
+
+// Contracts for the deductive verifier in /verif (gocv). Comment-only file.
+
+package txnsnapshot
+
+// Changing the snapshot timestamp invalidates everything that was learnt for the old timestamp: the result cache, the
+// "ignore these locks" hints (their transactions' min-commit-ts was pushed above the OLD timestamp) and the "read through
+// these locks" hints (their transactions committed at or before the OLD timestamp).
+//@ func (*KVSnapshot) SetSnapshotTS
+//@   prop C05
+//@   may-panic
+//@   ensures version: s.version == ts
+//@   ensures cache: s.mu.cached == nil
+//@   ensures hints: s.resolvedLocks.m == nil && s.committedLocks.m == nil
